@@ -38,7 +38,8 @@ REQUIRED_THEOREMS = [
     "Acn.C10.run_equivariant_stations_partial", "Acn.C10.body_shift", "Acn.C10.run_shift_partial",
     "Acn.C10.updateSchedules_shift", "Acn.C10.run_equivariant_stations", "Acn.C10.scripted_schedEquivariant",
     "Acn.C10.sort_perm_of_distinct_keys", "Acn.C10.run_shift", "Acn.C10.run_shift_anchored",
-    "Acn.C10.run_shift_from", "Acn.C10.scripted_schedShiftInvariant", "Acn.C10.run_perm_sessions_core", "Acn.C10.anchor_of_event",
+    "Acn.C10.run_shift_from", "Acn.C10.scripted_schedShiftInvariant", "Acn.C10.run_perm_sessions_core", "Acn.C10.anchor_of_event", "Acn.C10.run_perm_sessions",
+    "Acn.C10.scripted_ignoresEvsePilot",
 ]
 BUDGET = {"quick": 200, "thorough": 1600, "search": 1200}
 TRUSTED = ["CPython heapq / sorted (stable) / dict insertion order; numpy `@`, `sum`, `abs` (a changed summation "
@@ -60,7 +61,13 @@ RULE = ("scenario = 1-6 stations with non-sorted ids, mixed EVSE classes, voltag
         "keeps ties and skips the station-permutation comparison); schedulers scripted-by-station-name / empty / "
         "UncontrolledCharging / SortedSchedulingAlgo(fcfs, edf) / RoundRobin(fcfs); every 5th case dyadic "
         "(phase 0, coefficients ±1, dyadic pilots and limits: bitwise comparison); 8% malformed; per case random "
-        "permutations of stations, constraints, sessions, recomputes and a shift k in 0..30; "
+        "permutations of stations, constraints, sessions, recomputes and a shift k in 0..30; two targeted streams "
+        "(10% each) for the sorted algorithms' preprocessing: `tight` = uninterrupted_charging on finite-rate EVSEs "
+        "(non-zero minimum pilot), 3-4 cars at once, aggregate limit below the sum of the minima, registration "
+        "order unrelated to remaining time; `threshold` = plain FCFS, mixed minimum pilots / voltages (mixed "
+        "finished-thresholds), stations without sessions, demands that leave a last-period remainder between two "
+        "thresholds; on these (<=4 stations) EVERY registration order is run and compared per station id; 35% of "
+        "the other sorted cases use uninterrupted_charging; "
         "non-trivial = >=2 stations under a non-identity station permutation, >=2 sessions and energy delivered; "
         "distinct by hash of the case")
 
@@ -188,6 +195,85 @@ def gen_scenario(rng, algo=None, exact=False, ties=False, malformed=False):
     return sc
 
 
+def gen_targeted(rng, kind):
+    """Two classes of scenarios in which an index / order mix-up inside the sorted algorithms' preprocessing shows:
+    `tight`      uninterrupted_charging=True, EVSEs with a NON-ZERO minimum pilot, several cars plugged in at
+                 once (distinct departures), an aggregate limit below the sum of the minima, registration order
+                 unrelated to the remaining-time order;
+    `threshold`  plain FCFS, stations with MIXED minimum pilots and voltages (so mixed "finished" thresholds
+                 min_pilot*V*period/60/1000 kWh, incl. 0 for a continuous EVSE), partial occupancy (stations
+                 without any session, registered anywhere), requested energies a few thresholds large so that
+                 the remaining demand of the last periods falls between two stations' thresholds."""
+    ns = rng.randint(3, 4) if kind == "tight" else rng.randint(2, 4)
+    ids = _ids(rng, ns)
+    finite = [{"t": "finite", "rates": list(S.CC_RATES)}, {"t": "finite", "rates": list(S.AV_RATES)},
+              {"t": "finite", "rates": [10, 16, 24, 32]}, {"t": "finite", "rates": [12.5, 20, 30]}]
+    stations = []
+    for sid in ids:
+        if kind == "tight":
+            kd = copy.deepcopy(rng.choice(finite))
+        else:
+            kd = copy.deepcopy(rng.choice(finite + [{"t": "cont", "min": 0, "max": 32}]))
+        stations.append({"id": sid, "kind": kd, "V": rng.choice([208, 240, 120, 277.5]), "phase": rng.choice([0, 0, 30, -90])})
+    if kind == "threshold" and len({(json.dumps(st["kind"]), st["V"]) for st in stations}) == 1:
+        stations[0]["V"] = 120 if stations[0]["V"] != 120 else 240
+    sc = {"stations": stations}
+    period = rng.choice([1, 5, 5, 15])
+    if kind == "tight":
+        minima = sorted(min(r for r in st["kind"]["rates"] if r > 0) for st in stations)
+        lim = rng.choice([minima[0] + 0.7, minima[0] + minima[1] + 0.7, sum(minima) - 0.9, sum(minima[:-1]) + 0.3])
+        sc["constraints"] = [{"name": "agg", "coeffs": [[s_, 1] for s_ in rng.sample(ids, len(ids))], "limit": round(lim, 2)}]
+        occupied = list(ids)
+    else:
+        sc["constraints"] = [{"name": "agg", "coeffs": [[s_, 1] for s_ in rng.sample(ids, len(ids))], "limit": rng.choice([40.3, 64.7, 200.1])}]
+        occupied = rng.sample(ids, rng.randint(1, len(ids) - 1))       # at least one station stays empty
+    deps = rng.sample(range(4, 14), len(occupied))
+    arrs = rng.sample(range(0, 4), min(4, len(occupied))) + [0] * 4
+    sessions = []
+    for j, st_id in enumerate(occupied):
+        st = next(x for x in stations if x["id"] == st_id)
+        if kind == "tight":
+            req = round(rng.uniform(3, 20), 3)
+            arr = rng.choice([0, 0, 1]) if j else 0
+            arr = arrs[j] if rng.random() < 0.5 else arr
+        else:
+            ths = sorted({round((min([r for r in x["kind"].get("rates", [0]) if r > 0] or [0])) * I.num(x["V"]) * period / 60 / 1000, 6)
+                          for x in stations})
+            lo, hi = (ths + [ths[-1] * 2 + 0.05])[rng.randrange(len(ths))], 0
+            hi = min([t for t in ths if t > lo] or [lo + 0.08])
+            # the demand left for the last period(s): between two thresholds, after 0-3 full periods at >= min pilot
+            left = round(rng.uniform(lo, hi) if hi > lo else lo + 0.01, 4)
+            full = rng.choice([0, 1, 2, 3]) * rng.choice([8, 16, 32, 6]) * I.num(st["V"]) * period / 60 / 1000
+            req = round(left + full, 4)
+            arr = arrs[j]
+        sessions.append({"session": f"x{j}", "station": st_id, "arrival": arr, "departure": deps[j],
+                         "requested": max(req, 0.01), "batt": {"two": False, "cap": 100, "init": 5, "maxp": 50}, "est": None})
+    # distinct arrivals (FCFS key) as well
+    seen = set()
+    for x in sessions:
+        while x["arrival"] in seen:
+            x["arrival"] += 1
+        seen.add(x["arrival"])
+        x["departure"] = max(x["departure"], x["arrival"] + 2)
+    while len({x["departure"] for x in sessions}) < len(sessions):
+        for a in sessions:
+            if sum(1 for b in sessions if b["departure"] == a["departure"]) > 1:
+                a["departure"] += 1
+                break
+    rng.shuffle(sessions)
+    sc["sessions"] = sessions
+    sc["recomputes"] = []
+    sc["period"] = period
+    sc["max_recompute"] = 1
+    sc["noise"] = [0.0]
+    if kind == "tight":
+        sc["sched"] = {"type": rng.choice(["fcfs", "edf", "rr"]), "opts": {"uninterrupted": True}}
+    else:
+        sc["sched"] = {"type": "fcfs"}
+    sc["targeted"] = kind
+    return sc
+
+
 def _first_event(sc):
     ts = [s["arrival"] for s in sc["sessions"]] + list(sc["recomputes"])
     return min(ts) if ts else None
@@ -209,25 +295,38 @@ def gen_case(rng, i=0, tier="quick"):
     exact = (i % 5 == 4)
     ties = False
     malformed = False
-    if r in (0, 1, 2, 3, 4, 5, 6, 7):
+    targeted = None
+    if r in (0, 1, 2, 3, 4, 5, 6):
         algo = None
-        malformed = (r == 7) and rng.random() < 0.8
-    elif r in (8, 9, 10):
+        malformed = (r == 6) and rng.random() < 0.8
+    elif r in (7, 8):
         algo = "uncontrolled"
-    elif r in (11, 12, 13):
+    elif r in (9, 10):
         algo = "fcfs"
-    elif r in (14, 15):
+    elif r in (11, 12):
         algo = "edf"
-    elif r in (16, 17, 18):
+    elif r in (13, 14):
         algo = "rr"
+    elif r in (15, 16):
+        algo, targeted = "x", "tight"
+    elif r in (17, 18):
+        algo, targeted = "x", "threshold"
     else:
         algo = rng.choice(["fcfs", "edf", "rr"])
         ties = True
-    sc = gen_scenario(rng, algo, exact=exact and not malformed, ties=ties, malformed=malformed)
+    if targeted:
+        exact = False
+        sc = gen_targeted(rng, targeted)
+    else:
+        sc = gen_scenario(rng, algo, exact=exact and not malformed, ties=ties, malformed=malformed)
+        if algo in ("fcfs", "edf", "rr") and rng.random() < 0.35:
+            sc["sched"]["opts"] = {"uninterrupted": True}
     var = {"stations": _perm(rng, len(sc["stations"])), "constraints": _perm(rng, len(sc["constraints"])),
            "sessions": _perm(rng, len(sc["sessions"])), "recomputes": _perm(rng, len(sc["recomputes"])),
            "shift": rng.choice([0, 1, 1, 2, 3, 5, 7, 13, 30, rng.randint(0, 30)])}
     case = {"sc": sc, "var": var, "exact": bool(exact and not malformed), "ties": ties}
+    if targeted and len(sc["stations"]) <= 4:
+        case["allperms"] = True          # every registration order is compared, per station id
     if tier == "thorough" or i % 6 == 0:
         case["hashseeds"] = [1, 2, 3]
     return case
@@ -330,6 +429,23 @@ def variants_of(case):
 # ------------------------------------------------------------------------------- implementation
 
 
+def make_scheduler(sc, hooks):
+    """simcase's scheduler, or a sorted algorithm with non-default options
+    (`{"type": "fcfs"|"edf"|"rr", "opts": {"uninterrupted": true}}`)"""
+    sd = sc.get("sched") or {"type": "empty"}
+    opts = sd.get("opts") or {}
+    if not opts:
+        return S.make_scheduler(sc, hooks)
+    from acnportal import algorithms as A
+    fn = {"fcfs": A.first_come_first_served, "edf": A.earliest_deadline_first, "rr": A.first_come_first_served}[sd["type"]]
+    cls = A.RoundRobin if sd["type"] == "rr" else A.SortedSchedulingAlgo
+    inner = cls(fn, uninterrupted_charging=bool(opts.get("uninterrupted")))
+    inner.max_recompute = sc.get("max_recompute")
+    algo = S.WrappedAlgo(inner, hooks)
+    algo.max_recompute = sc.get("max_recompute")
+    return algo
+
+
 def build_sim(sc):
     """The REAL Simulator for a scenario: stations registered, constraints added and events listed
     in exactly the order of the scenario."""
@@ -358,7 +474,7 @@ def build_sim(sc):
         return None
 
     hooks = S.Hooks(after=probe)
-    algo = S.make_scheduler(sc, hooks)
+    algo = make_scheduler(sc, hooks)
     sim = Simulator(net, algo, EventQueue(events), S.START, period=I.num(sc["period"]), verbose=False)
     return sim, {"network": net, "scheduler": algo, "evs": evs, "hooks": hooks, "feas": feas}
 
@@ -402,6 +518,11 @@ def observe_all(case):
         out[name] = keyed(raw)
         if name == "combined":
             out["combined_raw"] = raw
+    if case.get("allperms"):
+        import itertools
+        n = len(case["sc"]["stations"])
+        out["allperms"] = [[list(p), keyed(run_scenario(variant(case["sc"], stations=list(p))))]
+                           for p in itertools.permutations(range(n)) if list(p) != list(range(n))]
     return out
 
 
@@ -418,6 +539,7 @@ def _worker_main():
             continue
         case = json.loads(line)
         try:
+            case.pop("allperms", None)
             o = observe_all(case)
             o.pop("combined_raw", None)
             sys.stdout.write(json.dumps({"ok": o}) + "\n")
@@ -636,6 +758,13 @@ def pair_relations(case, obs):
     else:
         # which of two colliding plug-ins raises depends on the listing order; only the unordered parts
         res["stations"] = relation(base, obs["stations"], exact=exact, error_partial=True) if not tie else []
+    if not tie:
+        for p, o in obs.get("allperms") or []:
+            d = relation(base, o, exact=exact, error_partial=True)
+            if d:
+                res.setdefault("stations", [])
+                res["stations"] = res["stations"] + [f"registration order {p}: " + d[0]]
+                break
     return res
 
 
@@ -699,6 +828,18 @@ def features(case, obs):
         f.append("phases:mixed")
     kinds = {st["kind"]["t"] for st in sc["stations"]}
     f.extend(f"evse:{k}" for k in sorted(kinds))
+    if sc.get("targeted"):
+        f.append(f"targeted:{sc['targeted']}")
+    if (sc["sched"].get("opts") or {}).get("uninterrupted"):
+        f.append("opt:uninterrupted")
+    if case.get("allperms"):
+        f.append("allperms")
+    if sc["sched"]["type"] in ("fcfs", "edf", "rr"):
+        rows = obs["base"]["pilots"]
+        act = max((sum(1 for s_ in rows if t < len(rows[s_]) and rows[s_][t] > 0) for t in range(max(len(r) for r in rows.values()))), default=0)
+        conn = max((sum(1 for v in row.values() if v is not None) for row in obs["base"]["occ"]), default=0)
+        if conn > act:
+            f.append("some_connected_car_gets_0")
     tr = tie_report(case, obs)
     if tr:
         f.append(tr)
